@@ -15,7 +15,7 @@
    consume never lifts the debt above max_debt, whatever interest is outstanding.
    [op_nonneg] = every cost / amount argument is >= 0. *)
 From Coq Require Import ZArith List Bool.
-From Verif Require Import C04.Model C04.Proofs.
+From Verif Require Import C04.Model C04.Proofs gen.Gen_C04 C04.GenOk C04.GenSys C04.GenProps.
 Import ListNotations.
 Open Scope Z_scope.
 
@@ -178,3 +178,70 @@ Theorem c04_no_raise :
     Forall (fun x : list store * ret => snd x <> Raised) (run classify interest false sys ops).
 Proof. exact no_raise_all. Qed.
 Print Assumptions c04_no_raise.
+
+(* ====================================================================== *)
+(* The same, about the functions GENERATED FROM THE SOURCE on every run.
+
+   gen/Gen_C04.v is produced from operon_ai/state/metabolism.py by translators/c04_gen.py: a record [gstore]
+   of the attributes ATP_Store really has and one Gallina function per method ([g_consume], [g_regenerate],
+   [g_transfer_to], [g_transfer_to_self] (other is self), [g_convert_nadh_to_atp], [g_apply_debt_interest],
+   [g_enter_dormancy], [g_exit_dormancy], [g_reset], [g_update_state] with its binary64 arithmetic).  [gstep] /
+   [grun] (GenSys.v) dispatch a history over a system of such objects; [proj s] is the object a model store [s]
+   stands for (ghost fields dropped; the rate is the float quotient rate_n / rate_d). *)
+
+(* Refinement: on every history whose indices name existing objects, the generated functions compute exactly
+   the projection of what the model computes - every intermediate state and every return value. *)
+Theorem c04_gen_refines_model :
+  forall ops sys,
+    Forall (op_addr_ok (length sys)) ops ->
+    grun (map proj sys) ops =
+    map (fun x => (map proj (fst x), snd x)) (run classify_float interest_float false sys ops).
+Proof. exact grun_ok. Qed.
+Print Assumptions c04_gen_refines_model.
+
+(* Exact charging and free failures, for the generated consume, in any state (no hypothesis). *)
+Theorem c04_gen_exact_charge :
+  forall sys i s cost t allow prio,
+    nth_error sys i = Some s ->
+    let gsys := map proj sys in
+    let gsys' := fst (gstep gsys (Local i (Consume cost t allow prio))) in
+    let r := snd (gstep gsys (Local i (Consume cost t allow prio))) in
+    exists g', nth_error gsys' i = Some g' /\
+      (forall k, k <> i -> nth_error gsys' k = nth_error gsys k) /\
+      ((r = RBool true /\ gnetworth g' = gnetworth (proj s) - cost /\
+        g_total_consumed g' = g_total_consumed (proj s) + cost /\
+        gsum_networth gsys' = gsum_networth gsys - cost)
+       \/
+       (r = RBool false /\ gnetworth g' = gnetworth (proj s) /\ g_gtp g' = g_gtp (proj s) /\
+        g_debt g' = g_debt (proj s) /\ g_total_consumed g' = g_total_consumed (proj s) /\
+        g_nadh g' <= g_nadh (proj s) /\
+        g_atp g' - g_atp (proj s) = g_nadh (proj s) - g_nadh g' /\
+        gsum_networth gsys' = gsum_networth gsys)).
+Proof. exact gen_exact_charge. Qed.
+Print Assumptions c04_gen_exact_charge.
+
+(* Transfers between generated objects (sender = receiver included) never create energy and never raise. *)
+Theorem c04_gen_transfer_no_creation :
+  forall sys i j amount t, 0 <= amount -> (i < length sys)%nat -> (j < length sys)%nat ->
+    let gsys := map proj sys in
+    let gsys' := fst (gstep gsys (Transfer i j amount t)) in
+    let r := snd (gstep gsys (Transfer i j amount t)) in
+    gsum_networth gsys' <= gsum_networth gsys /\
+    length gsys' = length gsys /\
+    (forall k, k <> i -> k <> j -> nth_error gsys' k = nth_error gsys k) /\
+    (r <> RBool true -> gsys' = gsys) /\
+    r <> Raised.
+Proof. exact gen_transfer_no_creation. Qed.
+Print Assumptions c04_gen_transfer_no_creation.
+
+(* No overdraft, for the generated functions: from freshly constructed objects with non-negative budgets and
+   limits whose interest rate never yields negative interest ([rate_ok]: a condition on the configured float,
+   true of every finite rate >= 0 - see Examples.v), every history with non-negative amounts keeps every
+   balance and the debt >= 0 in every state visited. *)
+Theorem c04_gen_no_overdraft_from_configurations :
+  forall cfgs ops,
+    Forall cfg_ok cfgs -> Forall rate_ok (map init_store cfgs) ->
+    Forall op_nonneg ops -> Forall (op_addr_ok (length cfgs)) ops ->
+    Forall (fun x => Forall ginv (fst x)) (grun (map proj (map init_store cfgs)) ops).
+Proof. exact gen_inv_from_configs. Qed.
+Print Assumptions c04_gen_no_overdraft_from_configurations.
